@@ -35,14 +35,16 @@
    in written order to the forest ([spec_module]); "removed" and "attributes replaced" on forests are
    the two definitions [remove_target] and [replace_attrs].
 
-   Deliberate choices where RFC and text leave room (each is an explicit hypothesis of the agreement
-   theorem, not a silent default):
-     * deviates following a not-supported in the same deviation (excluded by the RFC grammar) keep
-       being checked against the node that was removed, so an inapplicable one is still reported;
+   Where RFC and property text leave room:
+     * deviates that follow a not-supported in the same deviation (the RFC grammar excludes the mix, the
+       text is silent) keep being checked against the node that was removed, so that an inapplicable
+       one is still reported; a second not-supported finds nothing to remove and must be reported;
      * `deviate delete { default v; }` on a leaf-list removes that value (RFC).  The library refuses
-       this with an error instead ("or are reported"): excluded by [refused].
+       this with an error instead, which "or are reported" permits: [refused] marks the case and the
+       agreement theorem excludes it by hypothesis;
      * [known_delete_absent_bound]: the reference demands an error for deleting a bound whose
-       statement is absent; the library cannot see absence (KNOWN_FINDINGS sig=delete.absent-bound). *)
+       statement is absent ("deleting ... an element bound that is absent"); the library cannot see
+       absence.  KNOWN_FINDINGS sig=delete.absent-bound; guard of the _partial agreement theorems. *)
 From Coq Require Import List NArith Bool.
 From GY Require Import Model.Schema.
 Import ListNotations.
@@ -217,6 +219,22 @@ Definition known_delete_absent_bound (st : tstate) (dv : deviate) : bool :=
       ((match dv_min dv with Some n => negb (ts_min st) && (min_of (ts_node st) =? n) | None => false end) ||
        (match dv_max dv with Some n => negb (ts_max st) && (max_of (ts_node st) =? n) | None => false end))
   | _ => false
+  end.
+
+(* what the agreement between library and reference is claimed for: every statement in scope, none of
+   the two classes above met along the way (the states are those of the reference run) *)
+Definition step_claimed (st : tstate) (dv : deviate) : bool :=
+  in_scope dv && negb (refused st dv) && negb (known_delete_absent_bound st dv).
+
+Fixpoint claimed (resolvable : str -> bool) (ignore removable : bool) (st : tstate) (dvs : list deviate) : bool :=
+  match dvs with
+  | [] => true
+  | dv :: r =>
+    step_claimed st dv &&
+    match spec_deviate resolvable ignore removable st dv with
+    | Some st' => claimed resolvable ignore removable st' r
+    | None => true
+    end
   end.
 
 (* ------------------------------------------------------------------ forests *)
